@@ -86,6 +86,20 @@ Section Ops.
   Definition here {X} (on : bool) (m : nat) (act : unit -> mres X) (rest : nat -> mres X) : mres X :=
     if on then match m with O => act tt | S m' => rest m' end else rest m.
 
+  (* descending into the sub-space chosen by sub-choice j; [rec] is the walk over a candidate space *)
+  Definition sub_into (rec : dspec -> sdna -> nat -> mres sdna) (cands : list dspec) (cs : list (nat * sdna)) (j m' : nat)
+    : mres (list (nat * sdna)) :=
+    match nth_error cs j with
+    | Some (c, sub) => mmap (fun sub' => set_nth cs j (c, sub')) (with_nth (fun s => rec s sub m') (Skip m') cands c)
+    | None => Skip m' end.
+  (* the sub-choice nodes in order, each followed by the nodes below it *)
+  Definition subs_walk (onnode : bool) (act : nat -> mres (list (nat * sdna))) (into : nat -> nat -> mres (list (nat * sdna)))
+    : list nat -> nat -> mres (list (nat * sdna)) :=
+    fix go js m' := match js with
+                    | [] => Skip m'
+                    | j :: js' => here onnode m' (fun _ => act j) (fun m'' => mor (into j m'') (go js'))
+                    end.
+
   (* re-drawing sub-choice j of a multi-choice (mutators.py:83-121) *)
   Definition redraw_sub (n : nat) (cands : list dspec) (dist srt : bool) (cs : list (nat * sdna)) (j : nat) (r : R)
     : list (nat * sdna) * R :=
@@ -114,25 +128,13 @@ Section Ops.
     | Choices k cands dist srt _ _, PChoices cs =>
         let n := length cands in
         let whole := fun (_ : unit) => let (x', r') := rand_p p r in Done x' r' in
-        let into := fun (j : nat) (m' : nat) =>
-          match nth_error cs j with
-          | Some (c, sub) =>
-              mmap (fun sub' => set_nth cs j (c, sub'))
-                   (with_nth (fun s => mut_space s false sub m' r) (Skip m') cands c)
-          | None => Skip m' end in
+        let into := sub_into (fun s sub m' => mut_space s false sub m' r) cands cs in
         if k =? 1 then
           here (w_choice wh) m whole (fun m' => mmap PChoices (into O m'))
         else
           here (w_choice wh && negb fold) m whole (fun m0 =>
             mmap PChoices
-              ((fix go (js : list nat) (m' : nat) : mres (list (nat * sdna)) :=
-                  match js with
-                  | [] => Skip m'
-                  | j :: js' =>
-                      here (w_choice wh) m'
-                        (fun _ => let (cs', r') := redraw_sub n cands dist srt cs j r in Done cs' r')
-                        (fun m'' => mor (into j m'') (go js'))
-                  end) (seq 0 k) m0))
+              (subs_walk (w_choice wh) (fun j => let (cs', r') := redraw_sub n cands dist srt cs j r in Done cs' r') into (seq 0 k) m0))
     | FloatP lo hi _, PFloat _ =>
         here (w_float wh) m (fun _ => let (f, r') := uniform G lo hi r in Done (PFloat f) r') Skip
     | CustomP _, PCustom _ =>
@@ -196,17 +198,11 @@ Section Ops.
       mmap SSpace (mut_list (fun e x m' => swa_point f e fold x m' r) es ds m) end
   with swa_point (f : list (nat * sdna) -> list (nat * sdna)) (p : dpoint) (fold : bool) (x : pdna) (m : nat) (r : R) {struct p} : mres pdna :=
     match p, x with
-    | Choices k cands _ _ _ _, PChoices cs =>
-        let into := fun (j : nat) (m' : nat) =>
-          match nth_error cs j with
-          | Some (c, sub) =>
-              mmap (fun sub' => set_nth cs j (c, sub'))
-                   (with_nth (fun s => swa_space f s false sub m' r) (Skip m') cands c)
-          | None => Skip m' end in
-        here (negb (k =? 1) && w_choice wh && negb fold) m (fun _ => Done (PChoices (f cs)) r)
-          (fun m0 => mmap PChoices
-             ((fix go (js : list nat) (m' : nat) : mres (list (nat * sdna)) :=
-                 match js with [] => Skip m' | j :: js' => mor (into j m') (go js') end) (seq 0 k) m0))
+    | Choices k cands _ srt _ _, PChoices cs =>
+        let into := sub_into (fun s sub m' => swa_space f s false sub m' r) cands cs in
+        (* the node was chosen because its multi-choice is not sorted (mutate_swap): the test is repeated here *)
+        here (negb (k =? 1) && w_choice wh && negb fold) m (fun _ => Done (PChoices (if srt then cs else f cs)) r)
+          (fun m0 => mmap PChoices (subs_walk false (fun _ => Skip m0) into (seq 0 k) m0))
     | _, _ => Skip m
     end.
   (* the multi-choice of that node: its number of sub-choices *)
@@ -330,17 +326,52 @@ Section Ops.
       else
         (* Uniform passes weight 1 for every parent, Sample the adjusted weights; both are adjusted again *)
         merge_multi (k + 10) k dist srt vals 0 0 [] r.
-    Definition merge_float (vals : list (option flt)) (r : R) : res (flt * R) :=
+    (* Average / WeightedAverage keep the mean within the range of the decision point (recombinators._clip) *)
+    Definition clip (lo hi v : flt) : flt := Z.min (Z.max v lo) hi.
+    Definition merge_float (lo hi : flt) (vals : list (option flt)) (r : R) : res (flt * R) :=
       match kd with
-      | PWAverage => let l := somes vals in Ok ((sumZ l / Z.of_nat (length l))%Z, r)
+      | PWAverage => let l := somes vals in Ok (clip lo hi (sumZ l / Z.of_nat (length l))%Z, r)
       | PWWeighted =>
           let num := sumZ (map (fun ow => match fst ow with Some d => (snd ow * d)%Z | None => 0%Z end) (combine vals ws)) in
           let den := sumZ (map (fun ow => match fst ow with Some _ => snd ow | None => 0%Z end) (combine vals ws)) in
-          if (den =? 0)%Z then Err EZeroDiv else Ok ((num / den)%Z, r)
+          if (den =? 0)%Z then Err EZeroDiv else Ok (clip lo hi (num / den)%Z, r)
       | _ => choose_parent vals r
       end.
     Definition zip_app {X} (acc : list (option (list X))) (outs : list (option X)) : list (option (list X)) :=
       map (fun ao => match ao with (Some l, Some y) => Some (l ++ [y]) | _ => None end) (combine acc outs).
+
+    (* ---- the sub-spaces of a choice: per sub-choice position j and candidate c ------------------------ *)
+    (* which parents end up with candidate c at position j *)
+    Definition wants_of (newv : list (option (list nat))) (j c n : nat) : list bool :=
+      map (fun v => match v with Some l => nth j l n =? c | None => false end) newv.
+    (* ... and among them those that had chosen it themselves: they contribute their sub-decisions *)
+    Definition lives_of (old : list (option (list (nat * sdna)))) (wants : list bool) (j c : nat) : list (option sdna) :=
+      map (fun ow => match ow with
+                     | (Some cs, true) => match nth_error cs j with
+                                          | Some (c0, sub) => if c0 =? c then Some sub else None
+                                          | None => None end
+                     | _ => None end) (combine old wants).
+    Definition pick_outs (wants : list bool) (cur outs : list (option sdna)) : list (option sdna) :=
+      map (fun x => match x with (true, _, o) => o | (false, cu0, _) => cu0 end) (combine (combine wants cur) outs).
+    (* [rec c cand lives r]: the recombination inside candidate c *)
+    Definition pw_cands (rec : nat -> dspec -> list (option sdna) -> R -> res (list (option sdna) * R))
+                        (cands : list dspec) (old : list (option (list (nat * sdna)))) (newv : list (option (list nat)))
+                        (j n : nat) (r : R) : res (list (option sdna) * R) :=
+      foldi (fun c cand (st2 : list (option sdna) * R) =>
+               let wants := wants_of newv j c n in
+               if negb (existsb (fun b => b) wants) then Ok st2 else
+               dor o1 <- rec c cand (lives_of old wants j c) (snd st2);
+               Ok (pick_outs wants (fst st2) (fst o1), snd o1))
+            0 cands (map (fun _ => None) newv, r).
+    Definition pw_subs (rec : nat -> nat -> dspec -> list (option sdna) -> R -> res (list (option sdna) * R))
+                       (k : nat) (cands : list dspec) (old : list (option (list (nat * sdna)))) (newv : list (option (list nat)))
+                       (r : R) : res (list (option (list sdna)) * R) :=
+      foldi (fun j (_ : nat) (st : list (option (list sdna)) * R) =>
+               dor cu <- pw_cands (rec j) cands old newv j (length cands) (snd st);
+               Ok (zip_app (fst st) (fst cu), snd cu))
+            0 (seq 0 k) (map (fun _ => Some []) newv, r).
+    Definition pw_assemble (newv : list (option (list nat))) (subs : list (option (list sdna))) : list (option pdna) :=
+      map (fun x => match x with (Some l, Some sl) => Some (PChoices (combine l sl)) | _ => None end) (combine newv subs).
 
     (* parents: [Some d] = the parent is active here with decision d, [None] = it is not (its enclosing
        choice was replaced or it never chose this branch).  result: [None] = no decision is available for
@@ -361,7 +392,7 @@ Section Ops.
           let oldv := map (option_map (map fst)) old in
           let merged := (tgt a || forced) && negb (numeric kd) && negb (all_none old) in
           dor nv <- (if merged
-                     then dor dc <- merge_choice k dist srt oldv r; Ok (map (fun _ => Some (fst dc)) col, snd dc)
+                     then dor dc <- merge_choice k dist srt oldv r; Ok (map (fun _ => Some (fst dc)) old, snd dc)
                      else Ok (oldv, r));
           let newv := fst nv in
           (* some parent's decision at position j was replaced (or it had none) *)
@@ -369,26 +400,14 @@ Section Ops.
             merged && existsb (fun ov => match ov with
                                          | (Some o, Some v) => negb (nth j o n =? nth j v n)
                                          | _ => true end) (combine oldv newv) in
-          dor sb <- foldi (fun j (_ : nat) (st : list (option (list sdna)) * R) =>
-                      dor cu <- foldi (fun c cand (st2 : list (option sdna) * R) =>
-                                  let wants := map (fun v => match v with Some l => nth j l n =? c | None => false end) newv in
-                                  if negb (existsb (fun b => b) wants) then Ok st2 else
-                                  let lives := map (fun ow => match ow with
-                                                              | (Some cs, true) => match nth_error cs j with
-                                                                                   | Some (c0, sub) => if c0 =? c then Some sub else None
-                                                                                   | None => None end
-                                                              | _ => None end) (combine old wants) in
-                                  dor o1 <- pw_space cand (a ++ (if k =? 1 then [] else [j]) ++ [c]) (forced || changed j) lives (snd st2);
-                                  Ok (map (fun x => match x with (true, _, o) => o | (false, cu0, _) => cu0 end)
-                                          (combine (combine wants (fst st2)) (fst o1)), snd o1))
-                                0 cands (map (fun _ => None) col, snd st);
-                      Ok (zip_app (fst st) (fst cu), snd cu)) 0 (seq 0 k) (map (fun _ => Some []) col, snd nv);
-          Ok (map (fun x => match x with (Some l, Some sl) => Some (PChoices (combine l sl)) | _ => None end)
-                  (combine newv (fst sb)), snd sb)
+          dor sb <- pw_subs (fun j c cand lives r0 =>
+                               pw_space cand (a ++ (if k =? 1 then [] else [j]) ++ [c]) (forced || changed j) lives r0)
+                            k cands old newv (snd nv);
+          Ok (pw_assemble newv (fst sb), snd sb)
       | FloatP lo hi _ =>
           let vals := map (fun o => match o with Some (PFloat f) => Some f | _ => None end) col in
           if (tgt a || forced) && negb (all_none vals)
-          then dor fr <- merge_float vals r; Ok (map (fun _ => Some (PFloat (fst fr))) col, snd fr)
+          then dor fr <- merge_float lo hi vals r; Ok (map (fun _ => Some (PFloat (fst fr))) col, snd fr)
           else Ok (map (option_map PFloat) vals, r)
       | CustomP _ =>
           let vals := map (fun o => match o with Some (PCustom t) => Some t | _ => None end) col in
@@ -422,57 +441,45 @@ Section Ops.
 
   (* ================================ segment-wise recombinators ==================================== *)
   (* the independent top-level positions: a decision point, or one sub-choice of an unconstrained multi-choice *)
-  Inductive sunit := UP (x : pdna) | US (c : nat * sdna).
   Definition splits (e : dpoint) : bool :=
     match e with Choices k _ dist srt _ _ => negb (k =? 1) && negb (dist || srt) | _ => false end.
-  Fixpoint units_of (es : list dpoint) (ds : list pdna) : list sunit :=
-    match es, ds with
-    | e :: es', x :: ds' =>
-        (match x with PChoices cs => if splits e then map US cs else [UP x] | _ => [UP x] end) ++ units_of es' ds'
-    | _, _ => [] end.
-  Fixpoint take_subs (k : nat) (us : list sunit) : option (list (nat * sdna) * list sunit) :=
-    match k with
-    | O => Some ([], us)
-    | S k' => match us with
-              | US c :: r => match take_subs k' r with Some (l, r') => Some (c :: l, r') | None => None end
-              | _ => None end
-    end.
-  Fixpoint rebuild (es : list dpoint) (us : list sunit) : option (list pdna) :=
+  Fixpoint nunits (es : list dpoint) : nat :=
     match es with
-    | [] => match us with [] => Some [] | _ => None end
-    | e :: es' =>
-        if splits e then
-          match e with
-          | Choices k _ _ _ _ _ =>
-              match take_subs k us with
-              | Some (cs, r) => option_map (cons (PChoices cs)) (rebuild es' r)
-              | None => None end
-          | _ => None end
-        else match us with UP x :: r => option_map (cons x) (rebuild es' r) | _ => None end
+    | [] => 0
+    | e :: r => (if splits e then match e with Choices k _ _ _ _ _ => k | _ => 1 end else 1) + nunits r
     end.
-  (* for i, cp in enumerate(cuts + [len]): positions[start:cp] belong to segment i *)
+  (* for i, cp in enumerate(cuts + [len]): positions[start:cp] belong to segment i; odd segments come from the other parent *)
   Fixpoint seg_go (ends : list nat) (i start : nat) (par : list bool) : list bool :=
     match ends with
     | [] => par
     | cp :: r => seg_go r (S i) cp (mapi (fun u b => if (start <=? u) && (u <? cp) then Nat.odd i else b) 0 par)
     end.
-  Definition segment (cuts : list nat) (s : dspec) (x y : sdna) : res (list sdna) :=
+  (* the child that starts with x's segment ([flip] = false) or y's; [off] = position of the first unit of es *)
+  Fixpoint seg_mix (par : list bool) (flip : bool) (es : list dpoint) (dx dy : list pdna) (off : nat) : list pdna :=
+    match es, dx, dy with
+    | e :: es', x :: dx', y :: dy' =>
+        let take := fun i => xorb (nth (off + i) par false) flip in
+        match x, y with
+        | PChoices cx, PChoices cy =>
+            if splits e
+            then PChoices (mapi (fun i c => if take i then snd c else fst c) 0 (combine cx cy))
+                 :: seg_mix par flip es' dx' dy' (off + length cx)
+            else (if take 0 then y else x) :: seg_mix par flip es' dx' dy' (off + 1)
+        | _, _ => (if take 0 then y else x) :: seg_mix par flip es' dx' dy' (off + 1)
+        end
+    | _, _, _ => []
+    end.
+  Definition segment (cuts : list nat) (s : dspec) (x y : sdna) : list sdna :=
     match s, x, y with Space es, SSpace dx, SSpace dy =>
-      let ux := units_of es dx in let uy := units_of es dy in
-      let par := seg_go (cuts ++ [length ux]) 0 0 (map (fun _ => false) ux) in
-      let mix := fun (flip : bool) => map (fun t => match t with (b, a1, a2) => if xorb b flip then a2 else a1 end)
-                                          (combine (combine par ux) uy) in
-      match rebuild es (mix false), rebuild es (mix true) with
-      | Some c1, Some c2 => Ok [SSpace c1; SSpace c2]
-      | _, _ => Err EValue end
+      let n := nunits es in
+      let par := seg_go (cuts ++ [n]) 0 0 (repeat false n) in
+      [SSpace (seg_mix par false es dx dy 0); SSpace (seg_mix par true es dx dy 0)]
     end.
   Definition kpoint_cuts (k n : nat) (r : R) : list nat * R :=
     if k + 1 <? n then let (idx, r1) := sample G (n - 1) k r in (sort_by Nat.leb (map S idx), r1)
     else (seq 1 (n - 1), r).
-  Definition kpoint (k : nat) (s : dspec) (x y : sdna) (r : R) : res (list sdna * R) :=
-    match s, x with Space es, SSpace dx =>
-      let (cuts, r1) := kpoint_cuts k (length (units_of es dx)) r in
-      dor cs <- segment cuts s x y; Ok (cs, r1) end.
+  Definition kpoint (k : nat) (s : dspec) (x y : sdna) (r : R) : list sdna * R :=
+    let (cuts, r1) := kpoint_cuts k (nunits (elements s)) r in (segment cuts s x y, r1).
 
   (* ================================ permutation recombinators ===================================== *)
   Inductive ppath := PEnd (i : nat) | PStep (i j : nat) (rest : ppath).
@@ -504,17 +511,15 @@ Section Ops.
                           | Some (PChoices cs) => match nth_error cs j with Some (_, sub) => get_at rest sub | None => None end
                           | _ => None end
       end end.
-  Fixpoint set_at (pa : ppath) (new : list (nat * sdna)) (d : sdna) : option sdna :=
-    match d with SSpace ds =>
-      match pa with
-      | PEnd i => match nth_error ds i with Some (PChoices _) => Some (SSpace (set_nth ds i (PChoices new))) | _ => None end
-      | PStep i j rest => match nth_error ds i with
-                          | Some (PChoices cs) =>
-                              match nth_error cs j with
-                              | Some (c, sub) => option_map (fun sub' => SSpace (set_nth ds i (PChoices (set_nth cs j (c, sub'))))) (set_at rest new sub)
-                              | None => None end
-                          | _ => None end
-      end end.
+  (* replacing the decisions of the multi-choice that is element i of the root space *)
+  Definition set_end (s : dspec) (i : nat) (new : list (nat * sdna)) (d : sdna) : option sdna :=
+    match s, d with Space es, SSpace ds =>
+      match nth_error es i, nth_error ds i with
+      | Some (Choices _ _ dist srt _ _), Some (PChoices _) =>
+          (* a permutation point is distinct and not sorted (pp_point): the test is repeated here *)
+          if dist && negb srt then Some (SSpace (set_nth ds i (PChoices new))) else Some d
+      | _, _ => None end
+    end.
   Definition index_in (l : list nat) (v : nat) : option nat :=
     (fix go (i : nat) (l : list nat) := match l with [] => None | x :: r => if x =? v then Some i else go (S i) r end) O l.
   Definition slice {A} (l : list A) (a b : nat) : list A := firstn (b - a) (skipn a l).
@@ -621,17 +626,25 @@ Section Ops.
                    match get_at pa x, get_at pa y with
                    | Some cx, Some cy =>
                        dor pp <- permutate pk (map fst cx) (map fst cy) (snd st);
+                       (* every value of a proposal is looked up in the parent's own decisions (KeyError when missing);
+                          from_dict then validates the child (ValueError when the proposal repeats a value) *)
                        let kids := fun (d : sdna) (cs : list (nat * sdna)) =>
                          map (fun prop => match opt_list (map (fun v => find (fun c => fst c =? v) cs) prop) with
                                           | Some new =>
-                                              (* from_dict takes the DNA stored under an enclosing choice as a whole: a point that
-                                                 is not an element of the root space is shadowed and the child is a copy of the parent *)
-                                              match pa with PEnd _ => set_at pa new d | PStep _ _ _ => Some d end
-                                          | None => None end) (fst pp) in
-                       match opt_list (kids x cx ++ kids y cy) with
-                       | Some l => Ok (fst st ++ l, snd pp)
-                       | None => Err EKey end
+                                              if nodupb prop && (length prop =? length cs) then
+                                                (* from_dict takes the DNA stored under an enclosing choice as a whole: a point that
+                                                   is not an element of the root space is shadowed and the child is a copy of the parent *)
+                                                match pa with
+                                                | PEnd i => match set_end s i new d with Some c => Ok c | None => Err EKey end
+                                                | PStep _ _ _ => Ok d end
+                                              else Err EValue
+                                          | None => Err EKey end) (fst pp) in
+                       dor l <- fold_right (fun (x : res sdna) acc => dor c <- x; dor t <- acc; Ok (c :: t)) (Ok []) (kids x cx ++ kids y cy);
+                       Ok (fst st ++ l, snd pp)
                    | _, _ => Err EKey end) 0 pts ([], snd pr);
         dor so <- set_order (fst o) (snd o); Ok (Some (fst so), snd so)
     end.
 End Ops.
+Arguments Skip {R X} m.
+Arguments Done {R X} x r.
+Arguments Fail {R X} e.
